@@ -85,18 +85,18 @@ def run(ctx):
         ctx.sample({"table": n, "cells compared": len(ref), "sample": {("%02X" % b): (ref[b] and "%04X" % ref[b]) for b in list(sorted(ref))[:4]}})
     # 3. the decoders / encoders go through the table
     b2s = F.fn("encodings::bytes_to_string")
-    cl = F.closures_of(b2s.path)
+    cl = lib.local_scope(F, b2s)
     idx_ok = any(any(t["k"] == "assert" and t["ak"] == "bounds" for t in (c.term(i) for i in range(c.n))) for c in cl)
     ctx.ob(R, "decode-through-table", idx_ok and len(lib.calls_named(b2s, r"String::from_utf16$")) == 1, "bytes_to_string indexes the table by the byte and assembles UTF-16", b2s.where(),
            what="bytes_to_string no longer decodes each byte through the table")
     s2b = F.fn("encodings::string_to_bytes")
-    scl = F.with_closures(s2b)
+    scl = lib.local_scope(F, s2b)
     pos = [c for b in scl for c in b.calls if (c.fn or "").endswith("Iterator::position")]
     casts = []
     for b in scl:
         for bi, si, s in b.stmts():
             rv = s.get("rv")
-            if rv and rv["k"] == "cast" and rv["kind"].startswith("IntToInt") and rv["ty"] == "u8":
+            if rv and rv["k"] == "cast" and rv["kind"].startswith("IntToInt") and rv["ty"] in ("u8", "usize", "u32", "i32", "u64", "char"):
                 src = b.oname(rv["o"], 3)
                 srcty = None
                 p = op_place(rv["o"])
@@ -113,7 +113,9 @@ def run(ctx):
                 if not (d[2] == "call" and (d[3]["f"].get("fn") or "").endswith("Iterator::position")):
                     only_pos = False
                     casts.append((F.canon_of(b), "returns %s" % (b.rvname(d[3], 3) if d[2] == "rv" else "a projection")))
-    ctx.ob(R, "encode-through-table", len(pos) == 1 and not casts and only_pos, "string_to_bytes emits only positions found in the table (no u16 -> u8 shortcut)", s2b.where(),
+    # the table is consulted: Iterator::position over it, or a comparison of its Option<u16> cells with the unit
+    cmp16 = [c for b in scl for c in b.calls if re.search(r"cmp::PartialEq(<.*>)?>?::(eq|ne)$", c.fn or "") and "Option<u16>" in (c.full or "")]
+    ctx.ob(R, "encode-through-table", (len(pos) == 1 or bool(cmp16)) and not casts and only_pos, "string_to_bytes emits only positions found in the table (no u16 -> u8 shortcut)", s2b.where(),
            what="string_to_bytes has a path that turns a UTF-16 unit into a byte without looking it up in the table (%s): wrong for encodings whose ASCII range is not the identity (StandardEncoding 27/60)" % casts)
     # first-index re-encoding decodes to the same value (guards duplicated cells with different meaning)
     for n, t in tabs.items():
@@ -146,7 +148,7 @@ def run(ctx):
                 % (len(bad), ",".join("%02X" % x for x in bad[:6]) + ("..." if len(bad) > 6 else "")))
     # 5. BOM / byte order agreement
     enc = F.fn("encodings::encode_utf16_be")
-    ecl = F.with_closures(enc)
+    ecl = lib.local_scope(F, enc)
     be = [c for b in ecl for c in b.calls if re.search(r"num::<impl u16>::to_be_bytes$", c.fn or "")]
     le = [c for b in ecl for c in b.calls if re.search(r"to_le_bytes$|to_ne_bytes$", c.fn or "")]
     bom = [const_int(op_const(s["rv"]["o"])) for bi, si, s in enc.stmts() if s.get("rv") and s["rv"]["k"] == "use" and op_const(s["rv"]["o"]) is not None and const_int(op_const(s["rv"]["o"])) == 0xFEFF]
@@ -154,7 +156,7 @@ def run(ctx):
     ctx.ob(R, "encoder-utf16be", len(be) >= 2 and not le and bom and len(u16s) == 1, "encode_utf16_be writes FEFF and every UTF-16 unit big-endian", enc.where(),
            what="encode_utf16_be does not write the FE FF mark followed by big-endian UTF-16 units (surrogate pairs via encode_utf16)")
     dec = F.fn("common_data_structures::decode_text_string")
-    dcl = F.with_closures(dec)
+    dcl = lib.local_scope(F, dec)
     sw = [lib._const_bytes_through(dec, c.args[1]) for c in dec.calls if re.search(r"starts_with$", c.fn or "")]
     fb = [c for b in dcl for c in b.calls if re.search(r"num::<impl u16>::from_be_bytes$", c.fn or "")]
     fl = [c for b in dcl for c in b.calls if re.search(r"from_le_bytes$|from_ne_bytes$", c.fn or "")]
